@@ -461,8 +461,10 @@ class CodeFence(BlockToken):
         for line in lines:
             stripped_line = line.lstrip(' ')
             diff = len(line) - len(stripped_line)
-            if (stripped_line.startswith(cls._open_info[1])
-                    and len(stripped_line.split(maxsplit=1)) == 1
+            # a closing fence repeats the fence character at least as often as the opening one, and nothing else follows it
+            closing = stripped_line.rstrip(' \t\n')
+            if (closing.startswith(cls._open_info[1])
+                    and closing == closing[0] * len(closing)
                     and diff < 4):
                 break
             if diff > cls._open_info[0]:
